@@ -249,3 +249,125 @@ Print Assumptions C16_base64_literal_with_slashes_general.
 Print Assumptions C16_base64_literal_with_slashes_spellings.
 Print Assumptions C16_base64_then_comment.
 Print Assumptions C16_tokens_with_base64_data.
+
+(* ------------------------------------------------------------------------------------------------------------
+   Extension (line front end regenerated): theorems from Lemmas/LineGenLemmas.v about Gen/LineGen.v, the translation
+   of parse_instruction.py _split_instruction_into_tokens, _in_base64_literal, _parse_int, _parse_byte_arguments and
+   the top of parse_line.  The _refuted statements record where the source and the hand-written model differ: only on
+   lines the assembler rejects (a second parenthesis inside a parenthesised byte constant; signs, underscores and double
+   prefixes in integer literals). *)
+From Coq Require Import String List NArith ZArith Bool Arith.
+From Tealer Require Import Tables Syntax Parse Cfg KeysGen LineGen ParseLemmas ParseLemmas2 LineGenLemmas.
+
+(* the regenerated tokenizer is the model tokenizer on every string *)
+Theorem C16_tokens_gen_eq :
+      forall line : string, tokens_gen line = of_res (tokenize line).
+Proof. exact @tokens_gen_eq. Qed.
+
+(* with explicit loop fuel *)
+Theorem C16_split_gen_eq :
+      forall (wfuel : nat) (line : string),
+       String.length (strip line) < wfuel ->
+       split_instruction_into_tokens_gen wfuel line = of_res (tokenize line).
+Proof. exact @split_instruction_into_tokens_gen_eq. Qed.
+
+(* the base64 context test of the source *)
+Theorem C16_in_base64_gen_eq :
+      forall (fields : list string) (token : string),
+       in_base64_literal_gen fields token = Some (in_b64 (last fields "") (rev_string token)).
+Proof. exact @in_base64_literal_gen_eq. Qed.
+
+(* token lists print and tokenize back, base64 data included *)
+Theorem C16_tokens_gen_roundtrip :
+      forall ts : list string, toks_ok ts -> tokens_gen (join " " ts) = Some ts.
+Proof. exact @tokens_gen_toks_b64. Qed.
+
+(* whatever the model integer parser accepts the source parser accepts with the same value *)
+Theorem C16_parse_int_gen_complete :
+      forall (x : string) (n : N), parse_int x = Ok n -> parse_int_gen x = Some (Z.of_N n).
+Proof. exact @parse_int_gen_complete. Qed.
+
+(* equality on plain spellings *)
+Theorem C16_parse_int_gen_eq_partial :
+      forall x : string, int_plain x = true -> parse_int_gen x = option_map Z.of_N (of_res (parse_int x)).
+Proof. exact @parse_int_gen_eq_partial. Qed.
+
+(* the source accepts more spellings than the model, none of them valid TEAL *)
+Theorem C16_parse_int_gen_eq_refuted :
+      exists (x : string) (z : Z), parse_int_gen x = Some z /\ of_res (parse_int x) = None.
+Proof. exact @parse_int_gen_eq_refuted. Qed.
+
+(* decimal, hex and octal spellings of every number *)
+Theorem C16_parse_int_gen_spellings :
+      forall n : N,
+       parse_int_gen (string_of_N n) = Some (Z.of_N n) /\
+       parse_int_gen ("0x" ++ hex_of_N n) = Some (Z.of_N n) /\
+       parse_int_gen ("0" ++ oct_of_N n) = Some (Z.of_N n).
+Proof. exact @parse_int_gen_spellings. Qed.
+
+(* regenerated is_int *)
+Theorem C16_is_int_gen_eq :
+      forall x : string, is_int_gen x = Some (is_int x).
+Proof. exact @is_int_gen_eq. Qed.
+
+(* top of parse_line equals the model on every line whose byte arguments contain at most one parenthesis *)
+Theorem C16_parse_line_gen_eq_partial :
+      forall line : string, bytes_args_ok line -> parse_line_top line = of_res (parse_line line).
+Proof. exact @parse_line_top_eq_partial. Qed.
+
+(* in particular on every line that is not a byte-constant line *)
+Theorem C16_parse_line_gen_eq_nonbytes :
+      forall line : string,
+       (forall (fs : list string) (f0 : string) (rest : list string),
+        tokenize line = Ok fs -> strip_comment fs = f0 :: rest -> is_bytes_kw f0 = false) ->
+       parse_line_top line = of_res (parse_line line).
+Proof. exact @parse_line_top_eq_nonbytes. Qed.
+
+(* the witness of the difference *)
+Theorem C16_parse_line_gen_eq_refuted :
+      exists line : string,
+         parse_line_top line = Some (Some (IOther "Byte" (PStr "0x69b7" :: nil))) /\
+         parse_line line = Ok (Some (IOther "Byte" (PStr "0x69b71d79" :: nil))) /\ line = "byte b64(abcd(ef)".
+Proof. exact @parse_line_top_eq_refuted. Qed.
+
+(* print then parse of an int instruction *)
+Theorem C16_parse_line_gen_roundtrip_int :
+      forall n : N, parse_line_top (str_of_instr (IInt (IANum n))) = Some (Some (IInt (IANum n))).
+Proof. exact @parse_line_top_roundtrip_int. Qed.
+
+(* blank lines *)
+Theorem C16_parse_line_gen_blank :
+      forall l : string, all_space l = true -> parse_line_top l = Some None.
+Proof. exact @parse_line_top_blank. Qed.
+
+(* byte arguments of the source *)
+Theorem C16_byte_args_gen_eq_partial :
+      forall (wfuel : nat) (fields : list string),
+       Datatypes.length fields < wfuel ->
+       Forall (fun x : string => lparen_once x = true) fields ->
+       parse_byte_arguments_gen wfuel fields = of_res (parse_byte_args (S (Datatypes.length fields)) fields).
+Proof. exact @parse_byte_arguments_gen_eq_partial. Qed.
+
+(* and where they differ *)
+Theorem C16_byte_args_gen_eq_refuted :
+      exists fields : list string,
+         parse_byte_arguments_gen 5 fields = Some ("0x69b7" :: nil) /\
+         parse_byte_args 5 fields = Ok ("0x69b71d79" :: nil) /\ fields = "b64(abcd(ef)" :: nil.
+Proof. exact @parse_byte_arguments_gen_eq_refuted. Qed.
+
+Print Assumptions C16_tokens_gen_eq.
+Print Assumptions C16_split_gen_eq.
+Print Assumptions C16_in_base64_gen_eq.
+Print Assumptions C16_tokens_gen_roundtrip.
+Print Assumptions C16_parse_int_gen_complete.
+Print Assumptions C16_parse_int_gen_eq_partial.
+Print Assumptions C16_parse_int_gen_eq_refuted.
+Print Assumptions C16_parse_int_gen_spellings.
+Print Assumptions C16_is_int_gen_eq.
+Print Assumptions C16_parse_line_gen_eq_partial.
+Print Assumptions C16_parse_line_gen_eq_nonbytes.
+Print Assumptions C16_parse_line_gen_eq_refuted.
+Print Assumptions C16_parse_line_gen_roundtrip_int.
+Print Assumptions C16_parse_line_gen_blank.
+Print Assumptions C16_byte_args_gen_eq_partial.
+Print Assumptions C16_byte_args_gen_eq_refuted.
